@@ -21,6 +21,13 @@ def plan(pid):
 MIRI_T = (900, 2400)
 
 
+def _lazy_attr(mod, attr):
+    def fn(leg, seed, tier, replay=None):
+        import importlib
+        return getattr(importlib.import_module(mod), attr)(leg, seed, tier, replay=replay)
+    return fn
+
+
 def _lazy(mod):
     def fn(leg, seed, tier, replay=None):
         import importlib
@@ -398,6 +405,8 @@ def c30():
         Leg("lib-default", "c30", shards=(2, 8), crash_is_violation=True, timeout=(600, 2400), args={"no_caselog": 1}),
         Leg("asan-lib", "c30", shards=(2, 8), tiers=("thorough",), crash_is_violation=True, timeout=(600, 3000), seed_offset=700, args={"no_caselog": 1}),
         Leg("miri-base", "c30", shards=(1, 2), tiers=("thorough",), timeout=MIRI_T),
+        Leg("cli", "cli_c30", fn=_lazy("cli_c30"), label="cli:c30"),
+        Leg("asan-cli", "cli_c30", fn=_lazy("cli_c30"), label="asan-cli:c30", tiers=("thorough",), args={"fraction": 0.2}, seed_offset=900),
     ])
 
 
@@ -424,6 +433,7 @@ def c14():
         Leg("miri-base", "c14", shards=(1, 2), tiers=("thorough",), timeout=MIRI_T),
         Leg("miri-avx2", "c14", shards=(1, 2), tiers=("thorough",), timeout=MIRI_T),
         Leg("asan-lib", "c14", shards=(2, 8), tiers=("thorough",)),
+        Leg("cli", "cli_c14", fn=_lazy_attr("cli_yaml", "run_c14"), label="cli:c14"),
     ])
 
 
@@ -432,12 +442,16 @@ def c18():
     return Check("C18", [
         Leg("lib-default", "c18", shards=(4, 16)),
         Leg("miri-base", "c18", shards=(1, 2), tiers=("thorough",), timeout=MIRI_T),
+        Leg("cli", "cli_c18", fn=_lazy_attr("cli_yaml", "run_c18"), label="cli:c18"),
     ])
 
 
 @plan("C29")
 def c29():
-    return Check("C29", [Leg("lib-default", "c29", shards=(2, 8))])
+    return Check("C29", [
+        Leg("lib-default", "c29", shards=(2, 8)),
+        Leg("cli", "cli_c29", fn=_lazy_attr("cli_yaml", "run_c29"), label="cli:c29"),
+    ])
 
 
 META["C03"] = dict(
